@@ -36,6 +36,8 @@ def shown_default(t: M.Type, text: str, enum_values) -> str:
         return 'u' + text
     if t.name == 'double' and text in ('0', '7', '100', '-1', '42'):
         return text + 'd'
+    if t.name == 'double' and text == '0.5f':
+        return '0.5d'
     if '::' in text and text.split('::')[-1] in enum_values:
         return 'enum:%d' % enum_values[text.split('::')[-1]]
     s = DEFAULT_SHOWN.get(text)
